@@ -236,3 +236,9 @@ R.EXTERNALS["inspect.CO_COROUTINE"] = ZV(L.atom("inspect", "CO_COROUTINE"), "Fla
 R.METHODS[("CodeFlags", "__and__")] = lambda ip, r, a, k, n: ZB(is_coroutine(r.term)) if as_v(a[0]).eq(L.atom("inspect", "CO_COROUTINE")) else (_ for _ in ()).throw(Unsupported("flag bit"))
 
 L.axiom(T, "co-name-str", L.FA(f, L.is_str(co_name(f)), [co_name(f)]))
+
+R.add_field({"StoreLogger"}, "traces", "Seq[Trace]", "StoreLogger.traces")
+R.add_field({"StoreLogger"}, "store", "Store", "StoreLogger.store")
+declare_pred("func_module", L.V, L.V, tag="str")
+declare_always_truthy("StoreLogger", "Store")
+L.axiom(T, "func-module-str", L.FA(f, L.is_str(L.fn("func_module", L.V, L.V)(f)), [L.fn("func_module", L.V, L.V)(f)]))
